@@ -32,6 +32,7 @@ from translate import c19_export as X
 
 UNTYPED = L.UNTYPED
 SIDE = L.SIDE
+ALIAS = L.ALIAS
 DIVERGE = 'c19-analysis-diverges-on-growing-tuple-types'
 
 
@@ -157,7 +158,7 @@ def check(run):
     cases = []
     meta = {}
     unexplained = []
-    known = {UNTYPED: 0, SIDE: 0, DIVERGE: 0}
+    known = {UNTYPED: 0, SIDE: 0, ALIAS: 0, DIVERGE: 0}
     hist = {}
     seen_src = set()
     stats = {'programs': 0, 'runs': 0, 'runs_raising': 0, 'annotated_nodes': 0, 'events_checked': 0,
@@ -190,7 +191,7 @@ def check(run):
             continue
         stats['annotated_nodes'] += len(r['an'].types)
         for f in r['fails']:
-            if f['cause'] in (UNTYPED, SIDE):
+            if f['cause'] in (UNTYPED, SIDE, ALIAS):
                 known[f['cause']] += 1
                 run.violation(describe(f), {}, classify=f['cause'])
             else:
